@@ -107,6 +107,34 @@ def _result_map(w, o):
     return len(m)
 
 
+@op("result_display")
+def _result_display(w, o):
+    """Read-only presentation methods of the containers (must not alter them)."""
+    import contextlib  # noqa: PLC0415
+    import io  # noqa: PLC0415
+
+    import matplotlib.pyplot as plt  # noqa: PLC0415
+
+    r = w.get("res", o["r"])
+    k = o["how"]
+    if k == "dataframe":
+        kw = {"threshold": o.get("threshold", 1e-12)}
+        if w.m("res", o["r"])["rkind"] == "sim" and o.get("conv") is not None:
+            kw["conv_to_probability"] = o["conv"]
+        w.call(r.display_as_dataframe, **kw)
+    elif k == "print":
+        with contextlib.redirect_stdout(io.StringIO()):
+            w.call(r.print_outputs)
+    else:
+        try:
+            if w.m("res", o["r"])["rkind"] == "sim":
+                w.call(r.plot, conv_to_probability=o.get("conv", False), show=False)
+            else:
+                w.call(r.plot, show=False)
+        finally:
+            plt.close("all")
+
+
 @op("result_index")
 def _result_index(w, o):
     w.get("res", o["r"])
@@ -133,9 +161,16 @@ class ResultUser(Client):
         if len(ids) < 2 or (len(ids) < 8 and r.random() < 0.3):
             return self.create()
         rid = self.pick(ids)
-        k = r.choice(["map", "map", "map", "index"])
+        k = r.choice(["map", "map", "map", "index", "display"])
         if k == "index":
             return {"op": "result_index", "r": rid}
+        if k == "display":
+            how = r.choice(["dataframe", "dataframe", "dataframe", "print", "plot"])
+            if how == "plot" and r.random() < 0.7:
+                how = "dataframe"
+            return {"op": "result_display", "r": rid, "how": how,
+                    "threshold": r.choice([1e-12, 1e-12, 1e-3, 0.5]),
+                    "conv": r.choice([None, True, False])}
         o = {"op": "result_map", "r": rid,
              "kind": r.choice(["threshold", "parity"]),
              "invert": r.random() < 0.5, "perm": r.randrange(1 << 30)}
@@ -249,8 +284,15 @@ class ResultMonitor(Monitor):
         w = self.w
         k = op["op"]
         if k in ("result_synth", "result_sampling_synth", "result_from_sim",
-                 "result_from_analyzer", "result_from_sampler", "result_index"):
+                 "result_from_analyzer", "result_from_sampler", "result_index",
+                 "result_display"):
             rid = op.get("out", op.get("r"))
+            if k == "result_display" and w.has("res", rid):
+                w.probe("display_then_reindexed")
+                vs = self.check_indexing(w.pool["res"][rid], w.meta["res"][rid])
+                for v in vs:
+                    v["sig"]["after_display"] = op["how"]
+                return vs
             if out["status"] != "ok" or not w.has("res", rid):
                 return []
             w.probe("indexing_checked")
